@@ -54,6 +54,12 @@ NOTES = {
  "C10-frame-local-limit-ignores-output-cell": (False, "ABI locals were only placed in plain subroutines: placement 'abisub' (ABI-returning subroutine, output cell in the frame) added"),
  "C11-compilation-object-keeps-graphs": (False, "repeat probes used compileTeal (a fresh Compilation each time): probe same_expr_one_compilation_object calls compile() three times on one object"),
  "C12-extractors-share-literal-cache": (False, "C13 caught it at once; C12's alphabet had no two constants of different kinds with the same text: Bytes('f()void'), Bytes(<address text>), Bytes('0x61'), Bytes('TMPL_B') added"),
+ "C13-base64-match-trailing-newline": (True, ""),
+ "C14-signature-uint-width-rounded-up": (False, "declared types were drawn from PyTeal's own type specs: C14 and C19 now also declare ARC-4 types that exist only as signature text (uint24..uint512, ufixed, and composites of them) and compare layouts through a normal form of the reference codec's type"),
+ "C15-router-clear-map-is-approval-map": (False, "C15 compiled only through Compilation: 15 generated Router modules (bare action x 0-2 methods x clear-state kinds) are compiled with Router.compile(with_sourcemaps=True) and both programs' maps are checked"),
+ "C16-v8-fast-path-skips-quotient-check": (True, ""),
+ "C17-flatten-drops-b-when-targets-coincide": (False, "C01 caught it at once; C17 looked only at accept/reject: it now searches every accepted program's EMITTED TEAL (states (pc, stored slots)) for a load before a store, and explores the core alphabet again after two degenerate-loop prefixes (non-initial control-flow states)"),
+ "C20-replace-outgoing-elif": (True, ""),
  "C20-normalize-structural-in": (False, "recipes never used one Expr object twice; 'share' build mode added (C20, C01)"),
 }
 for name, (caught, note) in NOTES.items():
